@@ -109,6 +109,15 @@ func c17One(self, base string, size, limit int, mode string, acc *pairAcc, st *c
 		cut = "cut-at-byte-0"
 	}
 	desc := []string{fmt.Sprintf("node of %d bytes, write limited to %d bytes, mode %s -> %s", size, limit, mode, outcome)}
+	if size == 33 && (limit == 7 || limit == 33) {
+		ents, _ := os.ReadDir(dir)
+		var files []string
+		for _, e := range ents {
+			fi, _ := e.Info()
+			files = append(files, fmt.Sprintf("%s (%d bytes)", e.Name(), fi.Size()))
+		}
+		acc.sample(map[string]interface{}{"case": desc[0], "directory_after_the_child_exited": files})
+	}
 	cfg := &world.Config{Name: "persist/file"}
 	// "restart": a new Persist value over the same directory
 	p := file.NewPersistForPath(dir)
